@@ -10,6 +10,7 @@ CLAIMS = {
  'C06': ('Shape-abstract symbolic execution of the real validation prologues (check_input and every public data-taking method of every estimator, incl. each fit and calibrate_threshold): ndim 0..4 enumerated, every extent 0..4, NaN/inf/non-numeric flags, label values and count, n_components are solver variables; obligation on every path: no ValueError => well-formed (LIA, z3). The converse array-like clause is only sampled concretely (not solver-decided) and is stated as outside the claim.', 'DESIGN.md §3 C06'),
  'C05': ('Bounded symbolic execution of the real input-preparation code (_check_preprocessor, _prepare_inputs, check_input*, preprocess_tuples/points, ArrayIndexer) and the query methods on top of it: preprocessor data (3 points, d<=2) and metric are z3 reals, index arrays symbolic integers with repeats, preprocessor in {ndarray, nested list, recording callable}, tuple sizes 2/3/4 and points; term-equality with X[indices], bypass for formed data (call count), set_params taking effect, PreprocessorError wrapping for six exception types; fit-level equivalence via an AST side obligation on every fit plus a sampled concrete differential.', 'DESIGN.md §3 C05'),
  'C08': ('Bounded symbolic execution of every *_Supervised.fit with the base algorithm replaced by a recorder: points are z3 reals (n<=4 quick, n<=5 thorough), labels symbolic in {-1,0,1} or enumerated, every RNG draw solver-chosen (all seeds within the draw budget), NearestNeighbors by specification; the arguments that reach the base algorithm are proved term-equal to the documented composition (Constraints helper on the same random stream + tuple formation, same_length for LSML, chunks for RCA, k-NN triplets for SCML), other caller arguments pass through unchanged, no row of an unlabeled point reaches a constraint, default n_constraints = 20*n_classes^2.', 'DESIGN.md §3 C08'),
+ 'C18': ('CrossHair 0.0.110 (symbolic execution of the real constructors with z3): contracts generated at run time from inspect.signature of the 17 constructors; for every int/float/bool/None-default parameter a symbolic value is proved ("Confirmed over all paths") to come back untouched from get_params, set_params and clone, deprecated aliases to land on their replacement with a FutureWarning, each class with a post:False reachability twin; opaque values (str, arrays, callables, falsy objects) by identity on sentinels; NotFittedError for fresh / cloned / failed-fit estimators on every query method. Not confirmed / unable-to-meet-precondition = inconclusive (exit 2).', 'DESIGN.md §3 C18'),
  'C16': ('Bounded symbolic execution of the real calibrate_threshold and of scikit-learn\'s real precision_recall_curve / roc_curve on symbolic distances: every label vector with both classes (n<=3 all strategies, n=4 selected quick / all thorough, n=5 thorough), every ordering and tie pattern is a path, beta / min_rate are solver variables; on each path the solver searches for a cut-off with a strictly (robustly) better criterion value than threshold_; parameter validation before _fit explored over a symbolic real and special values (None, str, nan, inf, complex, list). Float rounding at exact rate boundaries is only sampled (concrete grid) and stated as outside the solver claim.', 'DESIGN.md §3 C16'),
  'C07': ('Bounded symbolic execution of the real Constraints methods: label vectors are solver variables in {-1,0,1}^n (pairs n<=3 quick / n<=5 thorough, chunks n<=4 / n<=6) or exhaustively enumerated (k-NN triplets, n<=5, points symbolic reals incl. duplicates); every RNG draw is an arbitrary value of its range (all seeds, all rejection schedules within the stated draw budget); NearestNeighbors replaced by its specification with free tie-breaking; each soundness clause is an obligation on every feasible path.', 'DESIGN.md §3 C07'),
  'C02': ('Bounded symbolic execution of all metric views (pair_distance, pair_score, score_pairs, get_metric plain/squared, transform, get_mahalanobis_matrix) on an arbitrary real components_ and arbitrary pairs, formed or given as indices through an array preprocessor; every view is proved equal to the quadratic form of M = L^T L, M symmetric PSD, closure independence; k<=3,d<=3 quick, k<=4,d<=8 thorough.', 'DESIGN.md §3 C02'),
@@ -34,8 +35,9 @@ def main():
       text, ref = CLAIMS[p]
       m['checks'].append({'property_id': p, 'quick_cmd': './check %s quick' % p, 'thorough_cmd': './check %s thorough' % p,
         'evidence_file': 'evidence/%s.json' % p, 'replay_cmd_template': './check %s --replay {path}' % p,
-        'engine': 'symx', 'level_claimed': {'category': 'model_checking', 'text': text, 'design_ref': ref},
-        'level_note': NOTE, 'technique': TECH})
+        'engine': 'crosshair' if p == 'C18' else 'symx', 'level_claimed': {'category': 'model_checking', 'text': text, 'design_ref': ref},
+        'level_note': NOTE if p != 'C18' else 'CrossHair int/float/bool models and z3 trusted; one parameter varied at a time; pickle round trip only sampled (C-level)',
+        'technique': TECH if p != 'C18' else 'solver-based: CrossHair symbolic execution of the real constructors (z3), contracts regenerated from the current signatures each run'})
     else:
       m['not_applicable'].append({'property_id': p, 'reason': NA.get(p, NA_WIP)})
   json.dump(m, open(os.path.join(V, 'MANIFEST.json'), 'w'), indent=1)
